@@ -183,7 +183,13 @@ func segLabel(segs []int, total int) string {
 func writeSegs(w io.Writer, data []byte, segs []int) (int, error) {
 	// Every piece is handed over in a scratch buffer that is overwritten as
 	// soon as Write returns: io.Writer implementations must not retain p.
+	calls := 0
 	write := func(p []byte) (int, error) {
+		calls++
+		if calls%3 == 0 {
+			// io.WriteString uses a WriteString method when the writer has one
+			return io.WriteString(w, string(p))
+		}
 		scratch := append([]byte{}, p...)
 		n, err := w.Write(scratch)
 		for i := range scratch {
